@@ -254,6 +254,23 @@ class Program:
                         continue
                     m = Module(modname, path, rel, src, tree, is_test=(top == "tests"))
                     self.modules[modname] = m
+        # files that exist only in the overlay (a variant that adds a module)
+        for rel, src in sorted(self.overlay.items()):
+            modname = rel[:-3].replace("/", ".")
+            if not rel.endswith(".py") or modname in self.modules or rel.split("/")[0] not in SOURCE_DIRS:
+                continue
+            if os.path.exists(os.path.join(self.root, rel)):
+                continue
+            try:
+                tree = ast.parse(src, filename=rel)
+                from .desugar import desugar
+                tree = desugar(tree)
+            except SyntaxError as e:
+                self.parse_errors.append(f"{rel}: {e}")
+                continue
+            if modname.endswith(".__init__"):
+                modname = modname[: -len(".__init__")]
+            self.modules[modname] = Module(modname, os.path.join(self.root, rel), rel, src, tree, is_test=rel.startswith("tests"))
         for m in self.modules.values():
             self._index_module(m)
 
@@ -578,6 +595,9 @@ class Program:
             raise AnalysisError(f"anchor module {module_name} not found")
         fi = m.functions.get(func_name)
         if fi is None:
+            r = self.resolve_symbol(m, func_name)          # moved to another module and imported back (re-exported)
+            if isinstance(r, FunctionInfo):
+                return r
             raise AnalysisError(f"anchor function {module_name}:{func_name} not found")
         return fi
 
